@@ -12,6 +12,9 @@ func InstallSeqHook(w *World) {
 		if point == "key.checked" {
 			w.KeyHook()
 		}
+		if len(point) > 5 && point[:5] == "snap." {
+			w.SnapHook(point, chunk)
+		}
 	}
 }
 
